@@ -20,7 +20,7 @@ const char *MUTS[] = {"Hputelement-new", "Hputelement-existing", "Hstartwrite", 
                       "VSsetclass-on-r", "VSfdefine-on-r", "VSsetinterlace-on-r", "VSsetexternalfile-on-r", "Vdeletetagref-on-r",
                       "Vinsert-on-r", "SDsetdimstrs", "SDsetnbitdataset", "SDsetdimval_comp", "GRsetexternalfile", "GRsetchunk",
                       "SDwritechunk", "GRwritechunk", "Hsetlength-on-read-aid", "Happendable-on-read-aid",
-                      "SDstart-not-hdf", "Hopen-not-hdf", "SDstart-rdwr-not-hdf", "GRwriteimage-legacy-rle"};
+                      "SDstart-not-hdf", "Hopen-not-hdf", "SDstart-rdwr-not-hdf", "GRwriteimage-legacy-rle", "SDreaddata-behind-the-data"};
 const int   NMUT   = sizeof MUTS / sizeof MUTS[0];
 
 // Mutators kept out of the search unless knob unguard_ro_api=1 is set.  Empty: the sixteen mutators that read-only
@@ -136,6 +136,14 @@ struct ReadOnly : Profile {
                 edge[j] = 1;
             if (n == "SDwritedata")
                 res = (rank < 1 || dims[0] == 0) ? -1 : SDwritedata(id, start, NULL, edge, data) == FAIL;
+            else if (n == "SDreaddata-behind-the-data") {
+                // not a write at all: a read that begins inside the data and ends behind it is refused -- and leaves nothing
+                // behind that the closing of this read-only id would store (the freeze monitor watches the close)
+                uint8_t rb[64];
+                edge[0]  = 2;
+                start[0] = dims[0] - 1;
+                res      = (rank < 1 || dims[0] < 1) ? -1 : SDreaddata(id, start, NULL, edge, rb) == FAIL;
+            }
             else if (n == "SDsetattr-sds")
                 res = SDsetattr(id, "ro_attr", DFNT_UINT8, 4, data) == FAIL;
             else if (n == "SDsetdatastrs")
@@ -705,6 +713,12 @@ struct ReadOnly : Profile {
                                  strf("the library version of the file reads %u.%u.%u before and %u.%u.%u after the file was opened for writing next to a reader", v0[0],
                                       v0[1], v0[2], v1[0], v1[1], v1[2]));
                     if (raid != FAIL) {
+                        // the reader's access was started for reading: cutting the element short through it is refused, whoever
+                        // else has the file open for writing by now
+                        ctx.st.checks++;
+                        if (Htrunc(raid, 1) != FAIL)
+                            ctx.fail("ro-accepted", "ro-accepted:Htrunc-on-read-aid-beside-writer",
+                                     strf("Htrunc through an access id started for reading cut element %u/%u short once the file was open for writing", rt, rr));
                         int32 rest = Hread(raid, rlen - rgot, rbuf.data() + rgot);
                         std::vector<uint8_t> whole((size_t)rlen + 8, 0);
                         int32 all = Hgetelement(ro, rt, rr, whole.data());
